@@ -2186,3 +2186,7 @@ mod tests {
         })
     }
 }
+
+#[cfg(kani)]
+#[path = "/verif/kani/rten-tensor/layout.rs"]
+mod verif_kani;
